@@ -10,6 +10,7 @@ import (
 	"math/rand"
 	"sort"
 
+	"mosn.io/api"
 	v2 "mosn.io/mosn/pkg/config/v2"
 	"mosn.io/mosn/pkg/router"
 	"mosn.io/mosn/pkg/types"
@@ -135,21 +136,46 @@ func runEDF(casesPath, tracePath string, rounds, maxPicks int) {
 			}
 			sum += w
 		}
-		tr.Emit(vh.Ev{"ev": "lb", "cw": c.CW})
-		// types.WeightedRoundRobin is not reachable through v2 LbType validation in every path; build directly
-		info2 := cluster.NewClusterInfo(v2.Cluster{Name: "c", LbType: v2.LbType(types.WeightedRoundRobin)})
-		lb := cluster.NewLoadBalancer(info2, cluster.NewHostSet(hosts))
+		choose := func(lb types.LoadBalancer, cnt int) {
+			for i := 0; i < cnt; i++ {
+				h := lb.ChooseHost(nil)
+				if h == nil {
+					tr.Emit(vh.Ev{"ev": "choose", "h": "none"})
+				} else {
+					tr.Emit(vh.Ev{"ev": "choose", "h": h.Hostname()})
+				}
+			}
+		}
 		picks := rounds * sum
 		if maxPicks > 0 && picks > maxPicks {
 			picks = maxPicks
 		}
-		for i := 0; i < picks; i++ {
-			h := lb.ChooseHost(nil)
-			if h == nil {
-				tr.Emit(vh.Ev{"ev": "choose", "h": "none"})
-			} else {
-				tr.Emit(vh.Ev{"ev": "choose", "h": h.Hostname()})
+		info2 := cluster.NewClusterInfo(v2.Cluster{Name: "c", LbType: v2.LbType(types.WeightedRoundRobin)})
+		// variant 0: all healthy from the start; variant i>0: host i is unhealthy when the balancer is built
+		// (the host set is published), serves some picks, then recovers without a new publication
+		for variant := 0; variant <= len(hosts); variant++ {
+			if variant > 0 && len(hosts) < 2 {
+				break
 			}
+			for _, h := range hosts {
+				h.ClearHealthFlag(api.FAILED_ACTIVE_HC)
+			}
+			tr.Emit(vh.Ev{"ev": "sick", "hs": []string{}})
+			if variant > 0 {
+				hosts[variant-1].SetHealthFlag(api.FAILED_ACTIVE_HC)
+				tr.Emit(vh.Ev{"ev": "sick", "hs": []string{hosts[variant-1].Hostname()}})
+			}
+			tr.Emit(vh.Ev{"ev": "lb", "cw": c.CW})
+			lb := cluster.NewLoadBalancer(info2, cluster.NewHostSet(hosts))
+			if variant > 0 {
+				choose(lb, sum)
+				hosts[variant-1].ClearHealthFlag(api.FAILED_ACTIVE_HC)
+				tr.Emit(vh.Ev{"ev": "epoch"})
+			}
+			choose(lb, picks)
+		}
+		for _, h := range hosts {
+			h.ClearHealthFlag(api.FAILED_ACTIVE_HC)
 		}
 		n++
 		return nil
